@@ -79,7 +79,11 @@ theorem wrapper_roundtrip (z : Zstd) (o : Oracle) (crc : Bytes → Nat) (f : Byt
     unfold wrapDecompress
     simp [z.roundtrip c _ hlim, hr, bind, Except.bind, intoCursor, Nat.not_le.mpr hD, statusOf]
 
-/-- the 128 MiB bound of the model is the one in the source -/
-theorem wrapper_limit : wrapperIntermediateLimit = 1024 * 1024 * 128 := by decide
+/-- the bound the wrapper puts on the expanded form is the one REGENERATED from lib.rs
+    (`Gen.WRAPPER_INTERMEDIATE_LIMIT`), and it admits every expanded form of at most 128 MiB — what the
+    property quantifies over (a larger bound would be fine, a smaller one is a violation) -/
+theorem wrapper_limit :
+    wrapperIntermediateLimit = Gen.WRAPPER_INTERMEDIATE_LIMIT ∧ 1024 * 1024 * 128 ≤ wrapperIntermediateLimit := by
+  decide
 
 end Preflate
